@@ -38,7 +38,7 @@ COMPONENTS = {
     'real': ['mapproxy.seed.seeder.seed/seed_task/TileWalker/SeedProgress', 'mapproxy.seed.util.ProgressLog/ProgressStore',
              'mapproxy.util.fs.write_atomic', 'mapproxy.seed.config.SeedingConfiguration/SeedConfiguration',
              'mapproxy.config.loader.ProxyConfiguration', 'mapproxy.grid.TileGrid/MetaGrid', 'mapproxy.util.coverage + shapely'],
-    'stub': ['worker pool (recording pool in place of TileWorkerPool: the hand-off is the observation point)',
+    'stub': ['worker pool (recording pool in place of TileWorkerPool: the hand-off is the observation point)', 'cache locker (stand-in for mapproxy.seed.cachelock.CacheLocker: another seeder holds one cache for a seeded simulated time)',
              'clock', 'file system for the progress file and the (empty) cache (SimFS)'],
 }
 ASSUMPTIONS = [
